@@ -144,21 +144,12 @@ func zzCheckRef(w *zzWorld, ref string, withGlobals bool) {
 		allAuthorized = verif.And(allAuthorized, a)
 	}
 	label := "[" + ref + "]"
-	// Known finding C01-K1 / C11-K1: with any global rule declared the
-	// exhaustive verifier comes first and satisfies the loop, so delegation
-	// rules are not enforced.
-	hasGlobals := false
-	for _, p := range w.policies {
-		if len(p.globals) > 0 {
-			hasGlobals = true
-		}
-	}
-	k1 := verif.And(hasGlobals, verif.And(err == nil, !allAuthorized))
-	verif.Witness("C01-K1", k1)
-
+	// (C11-F1, fixed: with any global rule declared the exhaustive verifier used
+	// to satisfy the verifier loop on its own, so delegation rules were not
+	// enforced)
 	if err == nil {
 		verif.Reach("accepted")
-		verif.Assert(verif.Or(allAuthorized, k1), "accepted-implies-every-entry-authorised"+label)
+		verif.Assert(allAuthorized, "accepted-implies-every-entry-authorised"+label)
 		verif.Assert(tip.Equal(events[len(events)-1].target), "tip-is-latest-target"+label)
 	} else {
 		verif.Reach("rejected")
